@@ -761,6 +761,8 @@ class Unit:
                 if r is not None: return r
             raise Unsupported('member %s of a type outside the unit (in %s)' % (n.get('name'), self.cur))
         txt = '%s%s%s' % (b, '->' if n.get('isArrow') else '.', self.alias_names.get(n['name'], n['name']))
+        if self.by_id[md].get('type', {}).get('qualType', '').rstrip().endswith('&'):
+            txt = '(*%s)' % txt        # a reference member is stored as a pointer: using it means the object it refers to
         # guarded-by discipline (spec key ('guarded_by', <C struct>): {field: condition over B = pointer to the object}):
         # every read or write of the field, anywhere in the unit, is preceded by an assertion of the condition
         rec = self.parent.get(md)
@@ -1095,6 +1097,11 @@ class Unit:
             self.dropped.append('%s in %s' % (me['name'], self.cur)); return '((void)0)'
         if cid is not None and (cid in self.defn or self.want_stub(cid)):
             b = self.expr(base)
+            sb = self.strip_tmp(base)
+            if not me.get('isArrow') and re.match(r'^[A-Za-z_]\w*\(.*\)$', b) and not b.startswith('v_vec') :
+                # method called on a temporary (the record returned by a call): materialise it
+                ct0, _ = self.ctype_node(base); t0 = self.new_tmp('__t')
+                self.pre.append('%s %s = %s;' % (ct0, t0, b)); b = t0
             obj = b if me.get('isArrow') else self.addr_text(b)
             self.need_func(cid)
             cn = self.func_cname(cid)
@@ -1901,6 +1908,11 @@ class Unit:
             if key[0] in ('contract', 'loop', 'ghost') and key not in self.used_keys:      # (call_as routes are optional: a missing recursive call shows up as a failed postcondition)
                 if key[0] == 'contract' and key[1] not in self.emitted_protos:
                     if self.spec.get(('optional', key[1])): continue
+                if key[0] == 'loop' and self.emitted_funcs.get(key[1]):
+                    # the function is there but has fewer loops than the spec annotates: a loop contract is only a proof hint, so it is
+                    # dropped and the function's own contract is checked as it stands (a changed body then fails its postcondition)
+                    self.dropped.append('loop contract %s #%d: no such loop in the extracted function any more' % (key[1], key[2]))
+                    self.dropped_loops = getattr(self, 'dropped_loops', []) + [(key[1], key[2])]; continue
                 raise Unsupported('spec key %r does not resolve in the extracted code' % (key,))
         return self.assemble()
 
